@@ -440,6 +440,140 @@ pcall(load, d .. d, "dd", "b") pcall(load, d:sub(2), "d2", "b") pcall(load, d:re
 pcall(string.dump, print) pcall(string.dump) pcall(string.dump, 1) pcall(string.dump, f, true) pcall(string.dump, coroutine.wrap(f))
 return n >= 1`
 	}, func(n int) string { return "t" })
+
+	// ---- size overflow at the ROOT context (no memory limit): sizes that no allocation can satisfy must
+	// be refused with a Lua error, not by a Go panic (makeslice: len out of range) or a fatal out-of-memory.
+	// Only sizes >= 2^49 are used: below that an unlimited context may legitimately try to allocate.
+	ovSizes := []int{1 << 49, 1 << 50, 1 << 55, 1 << 60, 1 << 61, 1<<62 - 1, 1 << 62, 1<<63 - 1}
+	ovf := func(name string, calls func(n string) []string) {
+		ts = append(ts, template{name: name, group: "overflow", nolimit: true, quick: single, thor: single,
+			gen: func(int) string {
+				var sb strings.Builder
+				sb.WriteString("local r = 0\n")
+				for _, n := range ovSizes {
+					for _, c := range calls(num(n)) {
+						sb.WriteString("r = r + select('#', pcall(" + c + "))\n")
+					}
+				}
+				sb.WriteString("return r > 0")
+				return sb.String()
+			}, expect: func(int) string { return "t" }})
+	}
+	ovf("overflow-string-rep", func(n string) []string {
+		return []string{"string.rep, 'x', " + n, "string.rep, 'ab', " + n, "string.rep, 'ab', " + n + ", 'c'", "string.rep, 'a', " + n + ", 'c'",
+			"string.rep, '', " + n + ", 'c'", "string.rep, 'abc', " + n + ", ''", "string.rep, ('x'):rep(1000), " + n, "string.rep, ('x'):rep(1000), " + n + " // 1000, ('y'):rep(1000)"}
+	})
+	ovf("overflow-table-unpack-select", func(n string) []string {
+		return []string{"table.unpack, {}, 1, " + n, "table.unpack, {}, -" + n + ", 1", "table.unpack, {1, 2, 3}, math.mininteger, " + n,
+			"select, " + n + ", 1, 2", "select, -" + n + ", 1, 2", "table.pack, table.unpack({}, 1, 3)",
+			"table.concat, {}, '', 1, " + n, "table.concat, {'a'}, ('s'):rep(100), -" + n + ", " + n}
+	})
+	ovf("overflow-string-unpack-packsize", func(n string) []string {
+		// (string.pack with a huge 'c' size pads byte by byte until memory runs out: gradual exhaustion in a
+		// context without a memory limit, which is the host's choice, so it is not part of this family)
+		return []string{"string.packsize, 'c" + n + "'", "string.packsize, 'c" + n + "c" + n + "c" + n + "c" + n + "'",
+			"string.unpack, 'c" + n + "', 'abc'", "string.unpack, 's8', ('\\255'):rep(7) .. '\\127'",
+			"string.unpack, 'c1', 'abc', " + n, "string.unpack, 'z', 'abc', -" + n}
+	})
+	ovf("overflow-string-misc", func(n string) []string {
+		return []string{"string.format, '%" + n + "d', 1", "string.format, '%." + n + "s', 'x'", "string.char, " + n, "string.byte, 'abc', 1, " + n, "string.byte, 'abc', -" + n + ", " + n,
+			"string.sub, 'abc', -" + n + ", " + n, "string.find, 'abc', 'b', " + n, "string.gsub, 'abc', 'b', 'x', " + n, "utf8.char, " + n, "utf8.offset, 'abc', " + n, "utf8.codepoint, 'abc', 1, " + n,
+			"utf8.len, 'abc', " + n, "math.random, " + n, "math.random, -" + n + ", " + n, "string.format, ('%%'):rep(10) .. '%" + n + "s', 'x'"}
+	})
+	ovf("overflow-load-reader", func(n string) []string {
+		return []string{"load, 'return ' .. " + n + " .. ' + ' .. " + n, "tonumber, ('9'):rep(400)", "tonumber, '1e" + n + "'", "tonumber, '0x" + "ffffffffffffffffffffffff" + "p" + n + "'", "math.tointeger, '" + n + "'"}
+	})
+	// ---- coroutine topologies: every misuse is an ordinary error or result, never a Go panic, a deadlock
+	// (these templates must answer at once: a TIMEOUT is a violation) or a process exit
+	cot := func(name, body, want string) {
+		ts = append(ts, template{name: "coroutine-" + name, group: "coroutine", nolimit: name == "kill-inside-coroutine", quick: single, thor: single,
+			gen: func(int) string { return body }, expect: func(int) string { return want }})
+	}
+	cot("resume-self", `local co co = coroutine.create(function() return coroutine.resume(co) end)
+local ok, ok2, msg = coroutine.resume(co) return ok == true and ok2 == false and type(msg) == "string" and coroutine.status(co) == "dead"`, "t")
+	cot("resume-resumer", `local outer outer = coroutine.create(function()
+  local inner = coroutine.create(function() return coroutine.resume(outer, "from inner") end)
+  local r = table.pack(coroutine.resume(inner)) return "outer done", table.unpack(r, 1, r.n) end)
+local r = table.pack(coroutine.resume(outer))
+return r[1] == true and r[2] == "outer done" and r[3] == true and r[4] == false and type(r[5]) == "string" and coroutine.status(outer) == "dead"`, "t")
+	cot("resume-resumer-chain", `local cos = {}
+for i = 1, 5 do cos[i] = coroutine.create(function() if i < 5 then return coroutine.resume(cos[i + 1]) end
+  local r = {} for j = 1, 5 do r[j] = select("#", coroutine.resume(cos[j])) end return table.concat(r, ",") end) end
+local r = table.pack(coroutine.resume(cos[1])) return r[1] == true and type(r[r.n]) == "string"`, "t")
+	cot("resume-main-from-coroutine", `local main = coroutine.running()
+local co = coroutine.create(function() return coroutine.resume(main) end)
+local ok, ok2, msg = coroutine.resume(co) return ok == true and ok2 == false and type(msg) == "string"`, "t")
+	cot("wrap-self", `local w w = coroutine.wrap(function() return pcall(w) end)
+local ok, msg = w() return ok == false and msg ~= nil`, "t")
+	cot("wrap-resumer", `local outer outer = coroutine.wrap(function() local inner = coroutine.wrap(function() return pcall(outer) end) return inner() end)
+local ok, msg = outer() return ok == false and msg ~= nil`, "t")
+	cot("wrap-dead-and-error", `local w = coroutine.wrap(function() return 1 end) w()
+local ok1 = pcall(w) local w2 = coroutine.wrap(function() error("boom") end) local ok2 = pcall(w2) local ok3 = pcall(w2)
+return ok1 == false and ok2 == false and ok3 == false`, "t")
+	cot("close-running-normal-self", `local main = coroutine.running()
+local r = {pcall(coroutine.close, main)}
+local co co = coroutine.create(function() local a = {pcall(coroutine.close, co)}
+  local inner = coroutine.create(function() return pcall(coroutine.close, co) end)
+  local b = {coroutine.resume(inner)} return a[1], b[2] end)
+local ok, a1, b2 = coroutine.resume(co)
+return r[1] == false and ok == true and a1 == false and b2 == false and coroutine.close(co) == true and coroutine.status(co) == "dead"`, "t")
+	cot("close-suspended-with-pending-closes", `local log = {}
+local co = coroutine.create(function() local a <close> = setmetatable({}, {__close = function() log[#log + 1] = "a" end})
+  local b <close> = setmetatable({}, {__close = function() log[#log + 1] = "b" error("in b") end}) coroutine.yield(1) end)
+coroutine.resume(co) local ok, err = coroutine.close(co)
+return ok == false and #log == 2 and coroutine.status(co) == "dead" and coroutine.close(co) == false`, "t")
+	cot("resume-inside-close-handler", `local other = coroutine.create(function() coroutine.yield("y1") return "done" end)
+local r = {}
+local co = coroutine.create(function() local x <close> = setmetatable({}, {__close = function() r[#r + 1] = select(2, coroutine.resume(other)) r[#r + 1] = select(2, coroutine.resume(other)) end}) coroutine.yield() end)
+coroutine.resume(co) coroutine.close(co)
+local co2 = coroutine.create(function() local x <close> = setmetatable({}, {__close = function() r[#r + 1] = select("#", coroutine.resume(co2)) end}) error("e") end)
+coroutine.resume(co2)
+return r[1] == "y1" and r[2] == "done"`, "t")
+	cot("yield-inside-close-handler", `local co = coroutine.create(function() do local x <close> = setmetatable({}, {__close = function() coroutine.yield("from close") end}) end return "end" end)
+local a = {coroutine.resume(co)} local b = {coroutine.resume(co)}
+return a[1] == true and coroutine.status(co) == "dead" or a[1] == false`, "t")
+	cot("resume-and-yield-inside-gc", `local co = coroutine.create(function() coroutine.yield(1) return 2 end)
+for i = 1, 50 do setmetatable({}, {__gc = function() pcall(coroutine.resume, co) pcall(coroutine.yield, 1) pcall(coroutine.close, co) end}) end
+local junk = {} for i = 1, 20000 do junk[i % 7] = {i} end
+return coroutine.status(co) ~= nil`, "t")
+	cot("yield-across-pcall-and-metamethods", `local mt = {__index = function(t, k) return coroutine.yield("index") end, __add = function(a, b) return coroutine.yield("add") end,
+  __lt = function(a, b) return coroutine.yield("lt") end, __concat = function(a, b) return coroutine.yield("concat") end, __len = function() return coroutine.yield("len") end,
+  __eq = function() return coroutine.yield("eq") end, __call = function(self, x) return coroutine.yield("call") end, __unm = function() return coroutine.yield("unm") end,
+  __newindex = function() coroutine.yield("newindex") end, __le = function() return coroutine.yield("le") end, __tostring = function() return coroutine.yield("tostring") end}
+local a, b = setmetatable({}, mt), setmetatable({}, mt)
+local co = coroutine.wrap(function()
+  local r = {pcall(function() return a.x end), pcall(function() return a + b end), pcall(function() return a < b end), pcall(function() return a .. b end),
+    pcall(function() return #a end), pcall(function() return a == b end), pcall(a, 1), pcall(function() return -a end), pcall(function() a.y = 1 end),
+    pcall(function() return a <= b end), pcall(tostring, a), pcall(pcall, coroutine.yield, "nested"), select(2, pcall(error, "after"))}
+  return "finished", #r end)
+local n, last = 0 repeat last = co(n) n = n + 1 until last == "finished" or n > 100
+return last == "finished"`, "t")
+	cot("yield-across-go-callbacks", `local function run(f) local co = coroutine.wrap(f) local n, v = 0 repeat v = {pcall(co, n)} n = n + 1 until v[1] == false or v[2] == "end" or n > 50 return v[1], v[2] end
+local r = {run(function() table.sort({3, 2, 1}, function(a, b) coroutine.yield("sort") return a < b end) return "end" end)}
+r[#r + 1] = run(function() local s = ("abc"):gsub(".", function(c) coroutine.yield(c) return c:upper() end) return "end" end)
+r[#r + 1] = run(function() for w in ("a b"):gmatch("%a") do coroutine.yield(w) end return "end" end)
+r[#r + 1] = run(function() local f = load(function() return coroutine.yield("piece") end) return "end" end)
+r[#r + 1] = run(function() xpcall(function() coroutine.yield("in xpcall") error("x") end, function(m) coroutine.yield("in handler") return m end) return "end" end)
+r[#r + 1] = run(function() for k, v in pairs(setmetatable({}, {__pairs = function(t) coroutine.yield("pairs") return next, {1}, nil end})) do coroutine.yield(k) end return "end" end)
+return #r > 0`, "t")
+	cot("status-and-misc", `local co = coroutine.create(function() coroutine.yield() end)
+local st = {coroutine.status(co)} coroutine.resume(co) st[2] = coroutine.status(co) coroutine.resume(co) st[3] = coroutine.status(co)
+local inner_status local outer outer = coroutine.create(function() local i = coroutine.create(function() inner_status = coroutine.status(outer) end) coroutine.resume(i) end) coroutine.resume(outer)
+local r = {pcall(coroutine.status), pcall(coroutine.status, 1), pcall(coroutine.resume, 1), pcall(coroutine.create, 1), pcall(coroutine.wrap, nil), pcall(coroutine.close, {}), pcall(coroutine.yield), coroutine.isyieldable(), pcall(coroutine.running, 1, 2)}
+return st[1] == "suspended" and st[2] == "suspended" and st[3] == "dead" and inner_status == "normal" and r[1] == false and r[7] == false`, "t")
+	cot("transfer-between-coroutines", `local shared = coroutine.create(function(...) local n = 0 while true do n = n + select("#", coroutine.yield(n)) end end)
+local function user(k) return coroutine.wrap(function() local t = 0 for i = 1, k do local ok, v = coroutine.resume(shared, i, i) t = v coroutine.yield(t) end return "end" end) end
+local a, b = user(3), user(3) local r = {a(), b(), a(), b(), a(), b(), a(), b()}
+return r[7] == "end" and coroutine.status(shared) == "suspended" and coroutine.close(shared)`, "t")
+	cot("kill-inside-coroutine", `local r = {}
+for _, lim in ipairs{{cpu = 1000}, {memory = 20000}} do
+  local ctx = runtime.callcontext({kill = lim}, function() local co = coroutine.wrap(function() local t = {} while true do t[#t + 1] = {} coroutine.yield() end end) while true do co() end end)
+  r[#r + 1] = tostring(ctx)
+  local co = coroutine.create(function() while true do coroutine.yield(1) end end) coroutine.resume(co)
+  local ctx2 = runtime.callcontext({kill = lim}, function() local t = {} while true do t[#t + 1] = select(2, coroutine.resume(co)) end end)
+  r[#r + 1] = tostring(ctx2) r[#r + 1] = coroutine.status(co) r[#r + 1] = select("#", coroutine.resume(co))
+end
+return #r == 8`, "t")
 	// ---- memory accounting across contexts (shared with C06) -------------------------------------
 	ts = append(ts, template{name: "memctx-coroutine-finishes-inside", group: "memctx", nolimit: true, quick: single, thor: single,
 		gen: func(n int) string {
@@ -662,7 +796,9 @@ func runTemplateChild(name string, n int, timeout time.Duration) string {
 	}
 }
 
-func isBadClass(c string) bool { return c == clsPanic || c == clsCrash || c == clsWrong || c == clsInternal }
+func isBadClass(c string) bool {
+	return c == clsPanic || c == clsCrash || c == clsWrong || c == clsInternal || c == clsHang
+}
 
 func templatesParent(tier string) {
 	ts := templates()
@@ -698,11 +834,21 @@ func templatesParent(tier string) {
 				}
 				acq.Unlock()
 				t0 := time.Now()
+				// templates that are one small program (ladder {1}) must answer at once: for them a TIMEOUT
+				// is a deadlock / endless loop, reported as class HANG after one more, longer, attempt (the
+				// machine may just be busy).  For size-parameterised templates a TIMEOUT stays inconclusive.
+				mustAnswer := len(ladder) == 1 && ladder[0] == 1
 				to := timeout
-				if strings.HasPrefix(t.name, "hang-") {
-					to = 12 * time.Second // a known hang: do not wait the full budget
+				if mustAnswer {
+					to = 10 * time.Second
 				}
 				l := runTemplateChild(t.name, n, to)
+				if mustAnswer && strings.Fields(l)[3] == clsTimeo {
+					l = runTemplateChild(t.name, n, 3*to)
+					if f := strings.Fields(l); f[3] == clsTimeo {
+						l = fmt.Sprintf("template %s %d %s -", t.name, n, clsHang)
+					}
+				}
 				if os.Getenv("C04_TIMING") != "" {
 					fmt.Fprintf(os.Stderr, "timing %s %d %.1f\n", t.name, n, time.Since(t0).Seconds())
 				}
